@@ -7,6 +7,7 @@ A total order on unsigned words is antisymmetric, transitive and total, so the p
              left and the right operand (operand roles and signs, decided from the CFG guards)
  RF-lex      __ymcw_cmp compares year, month, count in that order and then the offset from the month's first weekday
  RF14-umod   no unsigned difference that can wrap is reduced modulo a non-power-of-two in the comparison code
+ RF3-signed  the epoch branch of dt_dtcmp orders values through a member of signed type (instants before 1970 are negative)
  RF1-packed  dt_dtcmp never reads the date/time sandwich slots of a value whose tag says it is a packed epoch value
              (tag-specialised abstract interpretation over the record layout)
  RF2-range   the 32-bit matrix of dt_d_in_range_p / dt_dt_in_range_p decodes to the documented table; both functions agree
@@ -272,6 +273,49 @@ def check_packed(P, R):
         R.ob(rule, "dt_dtcmp reads no sandwich slot under a packed tag (%d tag runs)" % ok, True)
 
 
+def check_epoch_sign(P, R):
+    """RF3-signed: epoch offsets are signed (instants before 1970 are negative) and share their bits with the unsigned packed word
+    `u`.  In the branch of dt_dtcmp that handles the epoch tags, every ordering comparison reads a member of signed type; an
+    unsigned view orders every instant before 1970 after every instant since."""
+    from core import walk
+    rule = "RF3-signed"
+    tu = P.tu("dt-core.c")
+    fn = tu.func("dt_dtcmp")
+    if fn is None:
+        raise AnalysisBroken("dt_dtcmp vanished")
+    branches = []
+    for x in fn.walk():
+        if x.get("k") == "IfStmt":
+            names = {y.get("n") for y in walk(x["c"][0]) if y.get("k") == "DeclRefExpr"}
+            if {"DT_SEXY", "DT_SEXYTAI"} & names and not ({"DT_YMDHMS"} & names):
+                branches.append(x["c"][1])
+    if not branches:
+        raise AnalysisBroken("%s: the epoch branch of dt_dtcmp was not found" % rule)
+    n = 0
+    for br in branches:
+        for c in walk(br):
+            if c.get("k") != "BinaryOperator" or c.get("op") not in ("<", ">", "<=", ">="):
+                continue
+            n += 1
+            bad = []
+            for side in c["c"]:
+                e = strip(side)
+                while e is not None and e.get("k") in ("ImplicitCastExpr", "CStyleCastExpr", "ParenExpr") and e.get("c"):
+                    e = strip(e["c"][0])
+                if e is None or e.get("k") != "MemberExpr":
+                    continue
+                t = fn.tu.types[e["t"]] if e.get("t") is not None else {}
+                if not t.get("sg"):
+                    bad.append(expr_text(e))
+            if bad:
+                R.finding(rule, fn, "epoch comparison `%s`" % expr_text(c), "epoch values are compared through the unsigned member %s: an "
+                          "instant before 1970 (negative offset) becomes a huge number and compares later than every instant since: "
+                          "`dtest @-100 --lt @100` is false" % ", ".join(bad), c)
+            else:
+                R.ob(rule, "dt_dtcmp: `%s` compares signed epoch offsets" % expr_text(c), True)
+    R.floor(rule, "ordering comparisons in the epoch branch of dt_dtcmp", n, 2)
+
+
 def check_range(P, R):
     rule = "RF2-range"
     want = {}
@@ -523,6 +567,7 @@ def check(P, R, tier):
     roots = [P.func("date-core.c", "dt_dcmp"), P.func("dt-core.c", "dt_dtcmp"), P.func("date-core.c", "__ymcw_cmp")]
     nu = check_umod(P, R, roots)
     check_packed(P, R)
+    check_epoch_sign(P, R)
     check_range(P, R)
     check_dtest(P, R)
     check_dsort(P, R)
